@@ -20,8 +20,8 @@ def main():
 
 
 MANIFEST = {
-    "claimed": False,
-    "text": "",
-    "note": "",
+    "claimed": True,
+    "text": 'KNOWN FINDING (the documented contract is false). Theorems (Coq, closed): C17_fits - for every decoder-reported request (wf_request) of NTPv3/4/5, plain or NTS, every answer kind, cookie/placeholder/unique-identifier layout, reference-id request, server state and both shapes of the cookie loop, OUTSIDE known_class_C17 the answer the policy decided on is sent when handle gets a buffer exactly as long as the request; C17_refuted_uid, C17_refuted_uid2, C17_refuted_nonce, C17_refuted_v5_nak: witnesses inside the class (73, 84, 224 and 56 bytes) that are answered with 1024 bytes of buffer and dropped with a request-sized one. The monitor reports a request answered with the large buffer but dropped with the request-sized one; inside the class (computed independently in python) it is the known finding, outside it a violation.',
+    "note": 'Class: (a) echoed unique-identifier field shorter than the re-encode minimum (16; 28 last untrusted NTPv4 field), (b) NTS nonce shorter than 16, (c) NEW: NTPv5 request without draft identification whose authenticator fails (NAK/DENY adds the draft field; the decoder skips the draft check on the DecryptError path). Needs known_findings.json entries C17-short-uid-or-nonce and C17-v5-nak-without-draft. Trusted: as C16; wf_request (what the decoder guarantees: field length bounds, authenticator sizes, ciphertext = encrypted fields + 16-byte tag under ideal AEAD, draft id present in accepted NTPv5 packets, the cookie is an authenticated field at least as long as a fresh one, datagram <= 65535 bytes) is evaluated on every correspondence case together with the request-length formula. Print Assumptions: closed under the global context.',
     "design_ref": "DESIGN.md 3 C17",
 }
